@@ -328,7 +328,20 @@ pub fn gen_cases(profile: &str, seed: u64, b: &Budget) -> Vec<Case> {
                     bs = [64, 128, 192, 256, 512, 576, 1024, 320][(idx / 2) % 8];
                     cfg.block_size = bs;
                     mode = Mode::St;
-                    if idx % 3 == 0 {
+                    if idx % 5 == 1 {
+                        // partition-order cost curve with a local minimum at the 64-sample scale and the
+                        // global one far coarser; the signal is its own residual (fixed order 0 allowed only)
+                        family = "ricebump".to_string();
+                        bs = [512, 1024, 2048, 1024, 256][(idx / 5) % 5];
+                        cfg.block_size = bs;
+                        cfg.use_lpc = false;
+                        cfg.use_fixed = true;
+                        cfg.use_constant = true;
+                        cfg.fixed_max_order = if idx % 10 == 1 { 0 } else { 4 };
+                        cfg.max_parameter = 14;
+                        cfg.partitions = if idx % 15 == 1 { Some(16) } else { None };
+                        bps = 16;
+                    } else if idx % 3 == 0 {
                         // non-stationary residuals under a small configured maximum parameter
                         let b = (idx / 3) % 5;
                         family = format!("nonstat{b}");
@@ -383,6 +396,10 @@ pub fn gen_cases(profile: &str, seed: u64, b: &Budget) -> Vec<Case> {
         if family == "dcedge" {
             ch = 1;
             n = bs + idx % 7;
+        }
+        if family == "ricebump" {
+            ch = 1;
+            n = bs;
         }
         if long {
             ch = 1 + idx % 2;
